@@ -80,6 +80,28 @@ func VHKeyedRW() {
 	vAssert(vWait(), "every lock acquisition eventually returns")
 }
 
+// VHKeyedReaders: any number of readers may be inside together: two readers rendezvous while
+// both hold the read lock (impossible if RLockKey excluded other readers).
+func VHKeyedReaders() {
+	keys := c09keys()
+	var kr KeyedRWMutex[int]
+	c := make(chan int)
+	vGo(func() {
+		kr.RLockKey(keys[0])
+		<-c
+		kr.RUnlockKey(keys[0])
+	})
+	vGo(func() {
+		kr.RLockKey(keys[0])
+		c <- 1
+		kr.RUnlockKey(keys[0])
+	})
+	vAssert(vWait(), "any number of goroutines may be between RLockKey(k) and RUnlockKey(k) together")
+	// afterwards a writer gets in
+	vAssert(kr.TryLockKey(keys[0]), "the key is free again after both readers left")
+	vCover("keyed readers done")
+}
+
 // VHKeyedIndep: a goroutine holding key a forever never delays key b.
 func VHKeyedIndep() {
 	keys := c09keys()
